@@ -6,6 +6,7 @@ require (
 	github.com/anishathalye/porcupine v1.3.0
 	github.com/bufbuild/buf v0.0.0
 	github.com/bufbuild/protocompile v0.14.1
+	github.com/bufbuild/protoplugin v0.0.0-20250218205857-750e09ce93e1
 	github.com/google/uuid v1.6.0
 	github.com/klauspost/compress v1.18.0
 	google.golang.org/protobuf v1.36.6
@@ -19,8 +20,8 @@ require (
 	buf.build/go/protoyaml v0.3.2 // indirect
 	buf.build/go/spdx v0.2.0 // indirect
 	cel.dev/expr v0.23.1 // indirect
+	connectrpc.com/connect v1.18.1 // indirect
 	github.com/antlr4-go/antlr/v4 v4.13.1 // indirect
-	github.com/bufbuild/protoplugin v0.0.0-20250218205857-750e09ce93e1 // indirect
 	github.com/bufbuild/protovalidate-go v0.9.3 // indirect
 	github.com/gofrs/flock v0.12.1 // indirect
 	github.com/google/cel-go v0.24.1 // indirect
